@@ -15,7 +15,7 @@ pub fn run(property: &str, tier: &str) -> i32 {
         "C05" => {
             let r = e1_posgraph::run(&rep, Focus::for_property(property));
             let (n, m) = crate::e5_pure::c05_sensitivity(&rep);
-            let rule = format!("{}; plus: the 781 addressable hash constants non-zero and pairwise distinct, and every single-component mutation of 5 sample positions through the FEN loader changes the key", e1_rule);
+            let rule = format!("{}; plus: the 781 addressable hash constants non-zero and pairwise distinct, and every single-component mutation of 5 sample positions through the FEN loader changes the key; every queen-promotion edge is also replayed as text with the unknown fifth letters k p x Q 0 and the key the applier keeps is compared with the scratch key of the board the applier itself built", e1_rule);
             rep.finish(r.states + n, r.transitions + m, r.validated, r.exhaustive, &rule)
         }
         "C04" => {
